@@ -337,6 +337,9 @@ pub struct RStream<'a> {
     /// positions at which a codeword of the given code is known to start (by construction)
     pub starts: &'a BTreeMap<usize, Code>,
     pub tables: &'a TableDomain,
+    /// codes for which *every* position of the stream may be decoded (self-synchronising data:
+    /// the reference decoder decides at run time whether a complete in-domain codeword starts)
+    pub free_codes: &'a [Code],
 }
 
 #[derive(Default, Debug, Clone)]
@@ -405,7 +408,7 @@ impl RNotes {
     }
 }
 
-enum Step {
+pub enum Step {
     Continue,
     Stop,
 }
@@ -431,7 +434,7 @@ pub fn run_reader(s: &RStream, ops: &[ROp]) -> Result<RNotes, Failure> {
     res.map(|_| notes)
 }
 
-fn exec_rops(s: &RStream, rd: &mut dyn DynR, ops: &[ROp], p: &mut usize, notes: &mut RNotes, depth: usize) -> Result<Step, Failure> {
+pub fn exec_rops(s: &RStream, rd: &mut dyn DynR, ops: &[ROp], p: &mut usize, notes: &mut RNotes, depth: usize) -> Result<Step, Failure> {
     let e = s.cfg.e;
     let l = s.model.len();
     let z = s.cfg.backend.zero_ext();
@@ -440,6 +443,17 @@ fn exec_rops(s: &RStream, rd: &mut dyn DynR, ops: &[ROp], p: &mut usize, notes: 
     let cfgname = s.cfg.name();
     let unbuf = s.cfg.r == RKind::Unbuf;
     for (i, op) in ops.iter().enumerate() {
+        // a counting wrapper must equal the model position after every operation
+        if i > 0 {
+            if let Some(cn) = rd.counter() {
+                if cn != *p {
+                    return Err(Failure::new(
+                        format!("count_r/{}", rop_name(&ops[i - 1])),
+                        format!("after op #{} {:?}: bits_read = {}, bits actually consumed = {} on {}", i - 1, ops[i - 1], cn, *p, cfgname),
+                    ));
+                }
+            }
+        }
         let name = rop_name(op);
         let sig = |what: &str| format!("{}/{}/{}", name, tag, what);
         let ctx = |what: String| format!("op #{} {:?} at bit {} of {} (depth {}): {} on {}", i, op, *p, l, depth, what, cfgname);
@@ -578,7 +592,7 @@ fn exec_rops(s: &RStream, rd: &mut dyn DynR, ops: &[ROp], p: &mut usize, notes: 
             }
             ROp::Code(call) => {
                 let code = call.code();
-                if s.starts.get(p) != Some(&code) || !s.tables.allows_call(s.cfg.r, call) {
+                if (s.starts.get(p) != Some(&code) && !s.free_codes.contains(&code)) || !s.tables.allows_call(s.cfg.r, call) {
                     notes.skipped_domain += 1;
                     notes.executed -= 1;
                     continue;
@@ -611,7 +625,9 @@ fn exec_rops(s: &RStream, rd: &mut dyn DynR, ops: &[ROp], p: &mut usize, notes: 
                         *p += len;
                     }
                     None => {
-                        if z {
+                        if z || s.starts.get(p) != Some(&code) {
+                            // zero-extended tail without a complete codeword (D3), or a free position
+                            // whose bits are not an in-domain codeword (D4)
                             notes.skipped_domain += 1;
                             notes.executed -= 1;
                             continue;
@@ -774,6 +790,14 @@ fn exec_rops(s: &RStream, rd: &mut dyn DynR, ops: &[ROp], p: &mut usize, notes: 
                     None => { /* reader must be untouched: verified by the following operations */ }
                 }
             }
+        }
+    }
+    if let (Some(cn), Some(last)) = (rd.counter(), ops.last()) {
+        if cn != *p {
+            return Err(Failure::new(
+                format!("count_r/{}", rop_name(last)),
+                format!("after the last op {:?}: bits_read = {}, bits actually consumed = {} on {}", last, cn, *p, cfgname),
+            ));
         }
     }
     Ok(Step::Continue)
